@@ -156,6 +156,15 @@ func runHistMigScenario(r *lib.Run, idx int) {
 		}
 		retainedSeq = append(retainedSeq, nx)
 	}
+	// template (every sixth scenario): the first start is cancelled (its progress record is written),
+	// the operator then restarts with a retention window LARGER than the chain - the resumed run must
+	// finish what it began (its cutoff is pinned), not declare there is nothing to prune
+	template := idx%6 == 2 && !newState
+	if template {
+		nInt = 1
+		retainedSeq = []uint64{pick(rng, uint64(0), 1, 3, 5), uint64(w.cfg.ChainLen + 5)}
+		r.Count("history_pruner_migration_templates:cancelled-then-restarted-with-a-window-larger-than-the-chain", 1)
+	}
 	minRet := retainedSeq[0]
 	for _, x := range retainedSeq {
 		minRet = min(minRet, x)
@@ -204,7 +213,7 @@ func runHistMigScenario(r *lib.Run, idx int) {
 		if i < nInt {
 			k := int64(1 + rng.IntN(pick(rng, 12, 40, 70))) // early (stager), or anywhere up to the restore phase and the final clean-up
 			hr.AtCommit = int(k)
-			if rng.IntN(3) == 0 {
+			if rng.IntN(3) == 0 && !template {
 				hr.Interrupt = "commit-error"
 				failAt.Store(k)
 			} else {
